@@ -70,6 +70,7 @@ type vingWorld struct {
 	hSaw     *DecoyRegistration
 	live     *vingLive
 	passthru atomic.Bool
+	reload   bool
 }
 
 func vingSubnetFile(t testing.TB) string {
@@ -77,7 +78,13 @@ func vingSubnetFile(t testing.TB) string {
 	return filepath.Join(wd, "test", "phantom_subnets.toml")
 }
 
-func vingNewWorld(t testing.TB, anyLive bool) *vingWorld {
+// configurations of the reload scenarios: "old" forbids the covert, "new" blocklists the phantoms - each alone refuses the
+// registration, only a mixture of the two admits it
+var vingOldCovertBlock = []string{"2001:db8::/32"}
+
+func vingNewWorld(t testing.TB, anyLive bool) *vingWorld { return vingNewWorldCfg(t, anyLive, false) }
+
+func vingNewWorldCfg(t testing.TB, anyLive bool, reload bool) *vingWorld {
 	w := &vingWorld{t: t, shares: map[string]int{}, ann: map[string]int{}, upd: map[string]int{}, keyOf: map[string]string{},
 		arrive: make(chan vingArrival, 64), release: map[string]chan struct{}{}, regs: map[string]*DecoyRegistration{},
 		keyIdent: map[string]string{}, keyIP: map[string]net.IP{}}
@@ -92,7 +99,12 @@ func vingNewWorld(t testing.TB, anyLive bool) *vingWorld {
 		rw.WriteHeader(200)
 	}))
 	os.Setenv("PHANTOM_SUBNET_LOCATION", vingSubnetFile(t))
-	rm := NewRegistrationManager(&RegConfig{EnableIPv4: true, EnableIPv6: true, EnableShareOverAPI: true, PreshareEndpoint: w.srv.URL})
+	conf := &RegConfig{EnableIPv4: true, EnableIPv6: true, EnableShareOverAPI: true, PreshareEndpoint: w.srv.URL}
+	if reload {
+		conf.CovertBlocklistSubnets = vingOldCovertBlock
+		conf.ParseBlocklists()
+	}
+	rm := NewRegistrationManager(conf)
 	if rm == nil {
 		t.Fatalf("no registration manager")
 	}
@@ -113,6 +125,7 @@ func vingNewWorld(t testing.TB, anyLive bool) *vingWorld {
 		w.mu.Unlock()
 	}
 	w.rm = rm
+	w.reload = reload
 	verifhook.SetYield(func(point string, id any) {
 		if w.passthru.Load() {
 			return
@@ -193,10 +206,17 @@ func (w *vingWorld) project(keys []string, pcs map[string]string) map[string]any
 	for p, v := range pcs {
 		pc[p] = v
 	}
-	return map[string]any{"reg": reg, "tmo": tmo, "ann": ann, "upd": upd, "shares": sh, "pc": pc}
+	cfg := map[string]any{"pb": "old", "cp": "old"}
+	if len(w.rm.RegConfig.phantomBlocklist) > 0 {
+		cfg["pb"] = "new"
+	}
+	if w.reload && len(w.rm.RegConfig.covertBlocklistSubnets) == 0 {
+		cfg["cp"] = "new"
+	}
+	return map[string]any{"reg": reg, "tmo": tmo, "ann": ann, "upd": upd, "shares": sh, "pc": pc, "cfg": cfg}
 }
 
-var vingGatePc = map[string]string{"ingest.exists": "exists", "ingest.duptrack": "duptrack", "ingest.track": "track",
+var vingGatePc = map[string]string{"ingest.validate": "validate", "reload.covert": "rcovert", "reload.phantom": "rphantom", "ingest.exists": "exists", "ingest.duptrack": "duptrack", "ingest.track": "track",
 	"ingest.covert": "covert", "ingest.liveness": "liveness", "ingest.share": "share", "ingest.add": "add",
 	"sweep.collect": "collect", "sweep.remove": "remove", "done": "done"}
 
@@ -217,7 +237,13 @@ func vingRunSchedule(t testing.TB, sc *vingScenario, beh []map[string]any, gates
 			anyLive = true
 		}
 	}
-	w := vingNewWorld(t, anyLive)
+	hasReload := false
+	for _, p := range sc.Procs {
+		if p == "R" {
+			hasReload = true
+		}
+	}
+	w := vingNewWorldCfg(t, anyLive, hasReload)
 	defer w.close()
 	// pre-existing registrations: a complete (unscheduled) ingest, then back-date / mark
 	w.passthru.Store(true)
@@ -272,6 +298,27 @@ func vingRunSchedule(t testing.TB, sc *vingScenario, beh []map[string]any, gates
 		case "H":
 			pcs["H"] = "count"
 			continue
+		case "R":
+			// the new configuration: no covert restriction, every scenario phantom blocklisted
+			nc := &RegConfig{EnableIPv4: true, EnableIPv6: true, EnableShareOverAPI: true, PreshareEndpoint: w.srv.URL}
+			for _, k := range sc.Keys {
+				if w.keyIP[k] == nil {
+					w.mkReg(k, "api", true)
+				}
+				nc.PhantomBlocklist = append(nc.PhantomBlocklist, w.keyIP[k].String()+"/32")
+			}
+			nc.ParseBlocklists()
+			w.procOf.Store(w.rm, "R")
+			go func() {
+				defer close(done[p])
+				defer func() {
+					if r := recover(); r != nil {
+						w.arrive <- vingArrival{p, "panic:" + fmt.Sprint(r)}
+					}
+				}()
+				w.rm.OnReload(nc)
+				w.arrive <- vingArrival{p, "done"}
+			}()
 		default:
 			m := sc.Msgs[p]
 			r := w.mkReg(m["key"].(string), m["src"].(string), anyLive && !m["live"].(bool))
@@ -289,6 +336,11 @@ func vingRunSchedule(t testing.TB, sc *vingScenario, beh []map[string]any, gates
 			}()
 		}
 		a := w.waitFor(p)
+		// without a reload in the scenario the validate gate is local (nothing shared is read that can change)
+		for a.point == "ingest.validate" && !hasReload {
+			w.release[p] <- struct{}{}
+			a = w.waitFor(p)
+		}
 		pcs[p] = vingGatePc[a.point]
 		gatelog = append(gatelog, p+"@"+a.point)
 	}
@@ -519,5 +571,22 @@ func TestVerifIngestProbe(t *testing.T) {
 	w.close()
 	_ = beh
 	_ = sc
-	out.Emit(map[string]any{"kind": "probe", "gates": gates})
+	// which gates does a solo configuration reload pass?
+	w2 := vingNewWorldCfg(t, false, true)
+	w2.procOf.Store(w2.rm, "R")
+	w2.release["R"] = make(chan struct{})
+	nc := &RegConfig{EnableIPv4: true, EnableIPv6: true, PhantomBlocklist: []string{"203.0.113.0/24"}}
+	nc.ParseBlocklists()
+	go func() { w2.rm.OnReload(nc); w2.arrive <- vingArrival{"R", "done"} }()
+	rgates := []string{}
+	for {
+		a := w2.waitFor("R")
+		rgates = append(rgates, a.point)
+		if a.point == "done" || len(rgates) > 20 {
+			break
+		}
+		w2.release["R"] <- struct{}{}
+	}
+	w2.close()
+	out.Emit(map[string]any{"kind": "probe", "gates": gates, "reload_gates": rgates})
 }
